@@ -32,7 +32,7 @@ def sh(cmd, cwd=None, timeout=1800, env=None, inp=None):
     t0 = time.time()
     try:
         p = subprocess.run(cmd, cwd=cwd, shell=isinstance(cmd, str), env=env or ENV, input=inp,
-                           stdout=subprocess.PIPE, stderr=subprocess.STDOUT, timeout=timeout, text=True)
+                           stdout=subprocess.PIPE, stderr=subprocess.STDOUT, timeout=timeout, text=True, errors='replace')
         return p.returncode, p.stdout, time.time() - t0
     except subprocess.TimeoutExpired as e:
         out = e.stdout or ''
